@@ -34,8 +34,8 @@ ASSUMPTIONS = [
     "descriptor; the test suite's collection; each optionally with one run-time descriptor)",
     "handler level: value/length/start_position are held from `start` until the response is complete and no new "
     "`start` is given while a response is pending (StandardRequestHandler drives them from registers)",
-    "handler level: the request is one a host can make: start_position < wLength and start_position <= descriptor "
-    "length (continuation only after full packets)",
+    "handler level: the request is one a host can make: start_position is a multiple of the max packet size, "
+    "start_position < wLength and start_position <= descriptor length (continuation only after full packets)",
     "request level: legal host -- one SETUP at a time, IN tokens only while data is owed, ACK only after a complete "
     "packet and at least one cycle later, ACK may be lost (then the IN is repeated), status stage ends the request; "
     "wLength > 0; handshakes_in.nak/stall, rx and tokenizer inputs tied to 0",
@@ -87,7 +87,7 @@ class HandlerHarness(Harness):
         r = response_monitor(m, self, start=start, value=self.value, wlength=self.length, offset=self.sp,
                              tx=dut.tx, stall=dut.stall, descs=self.descs, mps=self.mps)
         m.d.comb += start.eq(self.start & r.idle)
-        m.d.comb += self.a_legal.eq(~start | r.legal)
+        m.d.comb += self.a_legal.eq(~start | (r.legal & ((self.sp % self.mps) == 0)))
         m.d.comb += self.a_stable.eq(r.idle | ((self.value == r.g_val) & (self.length == r.g_w) & (self.sp == r.g_off)))
         if self.ready_after_valid:
             seen = Signal(name="valid_prev")
@@ -225,9 +225,8 @@ def queries(tier):
     qs = []
     quick = tier == "quick"
     if quick:
-        hcfg = [("block", "sparse", 8), ("block", "dense", 8), ("distributed", "sparse", 8), ("mux", "sparse", 8),
-                ("block", "sparse", 16), ("distributed", "dense", 16)]
-        rcfg = [(False, "sparse", 8, False), (True, "sparse", 8, False), (False, "sparse", 8, True)]
+        hcfg = [("block", "sparse", 8), ("distributed", "sparse", 8), ("mux", "sparse", 8), ("block", "dense", 8)]
+        rcfg = [(False, "sparse", 8, False), (True, "sparse", 8, False), (False, "dense", 8, True)]
     else:
         hcfg = [(v, k, p) for v in ("block", "distributed", "mux") for k in ("sparse", "dense") for p in (8, 16)]
         hcfg += [("block", "suite", 8), ("distributed", "suite", 8), ("block", "sparse", 32), ("distributed", "sparse", 32),
@@ -237,18 +236,19 @@ def queries(tier):
     for variant, kind, mps in hcfg:
         f = (lambda a=variant, b=kind, c=mps: HandlerHarness(a, b, c))
         tag = f"{variant}_{kind}_mps{mps}"
-        K = mps + (12 if quick else 16)
-        qs.append(Query(f"bmc_h_{tag}", f, K, timeout=600,
-                        desc=f"handler level {tag}: value/length/start_position/start/ready free"))
-        if quick and mps != 8:
+        K = mps + (7 if quick else 12)
+        qs.append(Query(f"bmc_h_{tag}", f, K, timeout=900,
+                        desc=f"handler level {tag}: value/length/start_position symbolic constants of the run, "
+                             "start timing and tx.ready free every cycle"))
+        if quick and (mps != 8 or kind != "sparse"):
             continue
         qs.append(Query(f"cosim_h_{tag}", f, 0, kind="cosim", cosim_cycles=200 if quick else 600))
     for ab, kind, mps, rt in rcfg:
         f = (lambda a=ab, b=kind, c=mps, d=rt: RequestHarness(a, b, c, d))
         tag = f"{'dist' if ab else 'block'}_{kind}_mps{mps}{'_rt' if rt else ''}"
-        K = (2 * mps + 16) if quick else (3 * mps + 22)
-        qs.append(Query(f"bmc_r_{tag}", f, K, timeout=600,
+        K = (2 * mps + 12) if quick else (3 * mps + 20)
+        qs.append(Query(f"bmc_r_{tag}", f, K, timeout=900,
                         desc=f"request level {tag}: host model (IN / ACK delivered or lost / status), setup fields const symbolic"))
-        if not quick or mps == 8:
+        if not quick or kind == "sparse":
             qs.append(Query(f"cosim_r_{tag}", f, 0, kind="cosim", cosim_cycles=200 if quick else 600))
     return qs
